@@ -1453,6 +1453,12 @@ func ruleTokenProtocol(c *Ctx, rule1, rule2, rule3 string) {
 							retCtx = true
 						}
 					}
+					// ... through any number of private helpers: some value the result can be is ctx.Err() evaluated after the wait
+					for _, vc := range valueCases(v, 0) {
+						if ec, isE := stripConv(vc.Val).(*ssa.Call); isE && ec.Call.IsInvoke() && ec.Call.Method.Name() == "Err" && ec.Parent() == sel.Parent() && dominates(sel, ec) {
+							retCtx = true
+						}
+					}
 					// the error of the private helper that holds the wait
 					if ex, isEx := stripConv(v).(*ssa.Extract); isEx {
 						if hc, isC := ex.Tuple.(*ssa.Call); isC {
